@@ -158,6 +158,10 @@ pub fn check(case: &C12Case, st: &mut Stats) -> Verdict {
             let mut example = String::new();
             // one issuer instance for all repetitions; a decoy digest that recurs in a later
             // credential is recognisable as a decoy (real digests are re-salted every time)
+            // the same judgement per object position: (lists with >= 2 real digests, of which in
+            // member order, in reverse order; lists with >= 1 real digest and >= 1 decoy, of which
+            // decoys last, decoys first)
+            let mut per_pos: std::collections::BTreeMap<(crate::tree::Path, bool), [u64; 6]> = Default::default();
             let mut rep_issuer = sut::new_issuer(base.alg, crate::keys::KeyId::Primary);
             let mut all_decoys: HashSet<String> = HashSet::new();
             for _ in 0..case.repeat {
@@ -185,6 +189,28 @@ pub fn check(case: &C12Case, st: &mut Stats) -> Verdict {
                 }
                 for l in &r.sd_lists {
                     let real: Vec<&String> = l.entries.iter().filter_map(|e| e.2.as_ref()).collect();
+                    {
+                        let c = per_pos.entry((l.path.clone(), l.in_disclosure)).or_insert([0; 6]);
+                        let flags: Vec<bool> = l.entries.iter().map(|e| e.1.is_some()).collect();
+                        if real.len() >= 2 {
+                            let order = member_order(&tree, &l.path);
+                            let want: Vec<&String> = order.iter().filter(|n| real.contains(n)).collect();
+                            let mut rev = want.clone();
+                            rev.reverse();
+                            c[0] += 1;
+                            c[1] += (real == want) as u64;
+                            c[2] += (real == rev) as u64;
+                        }
+                        if flags.iter().any(|f| *f) && flags.iter().any(|f| !*f) {
+                            let first_decoy = flags.iter().position(|f| !*f).unwrap();
+                            let last_real = flags.iter().rposition(|f| *f).unwrap();
+                            let last_decoy = flags.iter().rposition(|f| !*f).unwrap();
+                            let first_real = flags.iter().position(|f| *f).unwrap();
+                            c[3] += 1;
+                            c[4] += (first_decoy > last_real) as u64;
+                            c[5] += (last_decoy < first_real) as u64;
+                        }
+                    }
                     if real.len() < 2 {
                         continue;
                     }
@@ -236,6 +262,34 @@ pub fn check(case: &C12Case, st: &mut Stats) -> Verdict {
             verdict(in_reverse_order, eligible, "list the real digests in reverse member order")?;
             verdict(decoys_last, eligible_decoy, "put every decoy after every real digest")?;
             verdict(decoys_first, eligible_decoy, "put every decoy before every real digest")?;
+            // per object position (each _sd list of the credential, followed over the issuances)
+            let mut positions_judged = 0u64;
+            for ((path, in_disc), c) in &per_pos {
+                let pv = |count: u64, total: u64, what: &str| -> Verdict {
+                    if total >= 200 && count == total {
+                        Err(Failure::new(
+                            format!("decoy:order-leak:position:{}", what),
+                            format!(
+                                "in all {} issuances of the same claims the _sd list of the object at {}{} {}",
+                                total,
+                                if path.is_empty() { "the top level".to_string() } else { path_str(path) },
+                                if *in_disc { " (inside a disclosed value)" } else { "" },
+                                what
+                            ),
+                        ))
+                    } else {
+                        Ok(())
+                    }
+                };
+                if c[0] >= 200 || c[3] >= 200 {
+                    positions_judged += 1;
+                }
+                pv(c[1], c[0], "lists the real digests in the original member order")?;
+                pv(c[2], c[0], "lists the real digests in reverse member order")?;
+                pv(c[4], c[3], "puts every decoy after every real digest")?;
+                pv(c[5], c[3], "puts every decoy before every real digest")?;
+            }
+            st.sum("order_positions_judged", positions_judged);
         }
     }
     Ok(())
